@@ -6,9 +6,11 @@ import (
 	"encoding/binary"
 	"fmt"
 	"net/url"
+	"runtime"
 	"strings"
 	"time"
 	_ "time/tzdata"
+	"unsafe"
 
 	"github.com/ja7ad/otp"
 	"github.com/ja7ad/otp/internal/verifh"
@@ -82,18 +84,67 @@ var DSTInstants = []int64{
 	1729990800, // 2024-10-27 01:00 UTC Berlin falls back
 }
 
+var monoMode int // set per run from the plan
+
 var processNow = time.Now() // carries a monotonic reading; its value is never logged or compared
+
+// timeLayout mirrors time.Time. It is used only to build instants whose
+// monotonic reading is unrelated to their wall time (what a stepped or
+// suspended wall clock produces) and is verified at start-up; if the check
+// fails the feature is off.
+type timeLayout struct {
+	wall uint64
+	ext  int64
+	loc  *time.Location
+}
+
+var monoLayoutOK = func() bool {
+	defer func() { _ = recover() }()
+	t := time.Now()
+	l := (*timeLayout)(unsafe.Pointer(&t))
+	if l.wall&(1<<63) == 0 {
+		return false
+	}
+	u := steppedTime(instant{1_700_000_123, 456}, 987654321)
+	v := steppedTime(instant{1_700_000_999, 1}, 987654321+5e9)
+	return u.Unix() == 1_700_000_123 && u.Nanosecond() == 456 && v.Sub(u) == 5*time.Second
+}()
+
+// steppedTime: wall clock = a, monotonic reading = mono (ns since an arbitrary origin).
+func steppedTime(a instant, mono int64) time.Time {
+	const wallToInternal = (1884*365 + 1884/4 - 1884/100 + 1884/400) * 86400
+	const unixToInternal = (1969*365 + 1969/4 - 1969/100 + 1969/400) * 86400
+	sec := a.Sec + unixToInternal - wallToInternal // seconds since 1885
+	var t time.Time
+	l := (*timeLayout)(unsafe.Pointer(&t))
+	l.wall = 1<<63 | uint64(sec)<<30 | uint64(a.Nsec)
+	l.ext = mono
+	l.loc = time.Local
+	return t
+}
+
+var monoTick int64 = 1 << 40
 
 // goTime presents the instant as a time.Time in the given zone, optionally
 // carrying a monotonic reading (only possible within ~±290 years of the real now).
 func goTime(a instant, zone int, mono bool) time.Time {
 	t := time.Unix(a.Sec, a.Nsec)
+	if mono && monoMode != 0 && monoLayoutOK && a.Sec > 0 && a.Sec < 5_000_000_000 {
+		// monotonic readings that disagree with the wall clock (stepped wall clock):
+		// a constant reading, or one that runs backwards while the wall time moves on
+		m := int64(1 << 40)
+		if monoMode == 2 {
+			monoTick -= 1_000_003
+			m = monoTick
+		}
+		return steppedTime(a, m) // no In(): changing the location strips the monotonic reading
+	}
 	if mono {
 		d := t.Sub(processNow)
 		if d > -(1<<62) && d < 1<<62 {
 			m := processNow.Add(d)
 			if m.Unix() == a.Sec && int64(m.Nanosecond()) == a.Nsec {
-				t = m
+				return m // carries a monotonic reading only in its original (local) location
 			}
 		}
 	}
@@ -230,8 +281,27 @@ type callResult struct {
 	meter    uint64
 }
 
+var (
+	gcBefore  []int
+	gcInCall  [][2]int
+	callCount int
+)
+
 func guarded(f func()) (r callResult) {
+	callCount++
+	for _, c := range gcBefore {
+		if c == callCount {
+			// memory of everything the previous calls no longer reference may now be reused
+			runtime.GC()
+			verifh.Count("fault.gc-between-calls", 1)
+		}
+	}
 	verifrt.ResetMeter(workCap)
+	for _, g := range gcInCall {
+		if g[0] == callCount {
+			verifrt.SetGCAt(uint64(g[1]))
+		}
+	}
 	defer func() {
 		r.meter = verifrt.Meter()
 		if p := recover(); p != nil {
@@ -241,10 +311,23 @@ func guarded(f func()) (r callResult) {
 				r.panicked, r.pval = true, p
 			}
 		}
+		verifrt.SetGCAt(0)
 		verifrt.ResetMeter(0)
 	}()
 	f()
 	return
+}
+
+// fresh returns a newly allocated copy of s when the plan asks for it: the
+// library then never sees the same string memory twice, and what it saw may be
+// collected and reused.
+var freshStrings bool
+
+func fresh(s string) string {
+	if !freshStrings {
+		return s
+	}
+	return strings.Clone(s)
 }
 
 func spell(secret []byte, spelling int) string {
@@ -339,7 +422,7 @@ func refHOTP(secret string, c uint64, digits, algo int) (string, bool) {
 	var code string
 	var err error
 	r := guarded(func() {
-		code, err = otp.GenerateHOTP(secret, c, &otp.Param{Digits: otp.Digits(digits), Algorithm: otp.Algorithm(algo)})
+		code, err = otp.GenerateHOTP(fresh(secret), c, &otp.Param{Digits: otp.Digits(digits), Algorithm: otp.Algorithm(algo)})
 	})
 	if r.panicked || r.tripped || err != nil {
 		return "", false
@@ -594,7 +677,7 @@ func (s *sim) hotpPress(a *acct, e *Event) {
 	c := a.tokCounter
 	var code string
 	var err error
-	r := guarded(func() { code, err = otp.GenerateHOTP(a.tokSecret, c, a.tokParam()) })
+	r := guarded(func() { code, err = otp.GenerateHOTP(fresh(a.tokSecret), c, a.tokParam()) })
 	a.tokCounter++ // wraps at 2^64 like a real token would
 	a.pressCount++
 	if a.pressCount%a.PersistEvery == 0 {
@@ -617,7 +700,7 @@ func (s *sim) hotpDeliver(a *acct, m message) {
 	digits, algo, skew, _ := a.verEff()
 	var ok bool
 	var err error
-	r := guarded(func() { ok, err = otp.ValidateHOTP(a.stored, m.code, c, a.verParam()) })
+	r := guarded(func() { ok, err = otp.ValidateHOTP(fresh(a.stored), fresh(m.code), c, a.verParam()) })
 	s.logf("hotp deliver acct=%d c=%d truth=%d code=%q -> %v %v", a.idx, c, m.truth, m.code, ok, err)
 	s.events++
 	dist := int64(m.truth - c)
@@ -881,7 +964,7 @@ func (s *sim) totpPress(a *acct, e *Event) {
 			tp = &cp
 		}
 	}
-	r := guarded(func() { code, err = otp.GenerateTOTP(a.tokSecret, goTime(tc, a.Zone, a.Mono), tp) })
+	r := guarded(func() { code, err = otp.GenerateTOTP(fresh(a.tokSecret), goTime(tc, a.Zone, a.Mono), tp) })
 	step := uint64(tc.Sec) / periodEff(a.Period)
 	if r.panicked || r.tripped || err != nil {
 		verifh.Count("token.generate-failed", 1)
@@ -904,7 +987,7 @@ func (s *sim) totpDeliver(a *acct, m message) {
 	var ok bool
 	var err error
 	tv := goTime(vc, a.Zone+1, a.Mono)
-	r := guarded(func() { ok, err = otp.ValidateTOTP(a.stored, m.code, tv, a.verParam()) })
+	r := guarded(func() { ok, err = otp.ValidateTOTP(fresh(a.stored), fresh(m.code), tv, a.verParam()) })
 	s.logf("totp deliver acct=%d ver=%d.%09d n=%d truth=%d code=%q -> %v %v", a.idx, vc.Sec, vc.Nsec, n, m.truth, m.code, ok, err)
 	s.events++
 	dist := int64(m.truth - n)
@@ -1022,7 +1105,7 @@ func (s *sim) totpDisplay(a *acct, e *Event) {
 	for _, v := range variants {
 		var got string
 		var err error
-		r := guarded(func() { got, err = otp.GenerateTOTP(a.tokSecret, v.t, param) })
+		r := guarded(func() { got, err = otp.GenerateTOTP(fresh(a.tokSecret), v.t, param) })
 		s.logf("display acct=%d t=%d.%09d %s n=%d -> %q %v", a.idx, tc.Sec, tc.Nsec, v.name, n, got, err)
 		if r.tripped {
 			s.fail("bounded-work", "GenerateTOTP", "work-cap", "GenerateTOTP exceeded the work cap")
@@ -1214,7 +1297,7 @@ func (s *sim) ocraClient(a *acct, e *Event, chal []byte, seq int) {
 	a.ocraTokCtr++
 	var code string
 	var err error
-	r := guarded(func() { code, err = otp.GenerateOCRA(a.tokSecret, st, view.input()) })
+	r := guarded(func() { code, err = otp.GenerateOCRA(fresh(a.tokSecret), st, view.input()) })
 	if r.panicked || r.tripped || err != nil {
 		verifh.Count("client.generate-failed", 1)
 		code = "000000"
@@ -1265,11 +1348,11 @@ func eqView(a, b *ocraView, cfg otp.SuiteConfig) bool {
 func (s *sim) ocraJudge(a *acct, st otp.Suite, view *ocraView, submitted string, clientView *ocraView) {
 	var ok bool
 	var err error
-	r := guarded(func() { ok, err = otp.ValidateOCRA(a.stored, submitted, st, view.input()) })
+	r := guarded(func() { ok, err = otp.ValidateOCRA(fresh(a.stored), fresh(submitted), st, view.input()) })
 	s.events++
 	var want string
 	var gerr error
-	rg := guarded(func() { want, gerr = otp.GenerateOCRA(a.stored, st, view.input()) })
+	rg := guarded(func() { want, gerr = otp.GenerateOCRA(fresh(a.stored), st, view.input()) })
 	cfg := safeConfig(st)
 	sameView := eqView(view, clientView, cfg)
 	s.logf("ocra deliver acct=%d code=%q -> %v %v (gen %q %v) sameView=%v", a.idx, submitted, ok, err, want, gerr, sameView)
@@ -1447,8 +1530,72 @@ func (s *sim) misc(a *acct, e *Event) {
 // run
 
 // Run executes one plan and returns the first violation (nil if none).
-func Run(p *Plan, logOn bool) (*verifh.Violation, *sim) {
+//
+// When the library starts goroutines of its own (verifrt.LibGoroutines, decided
+// when the scratch copy is built) the whole plan is executed as the single
+// caller task of one baton-scheduler run: the library's goroutines are further
+// tasks, which of them runs next is drawn from the plan (InnerSched), and one
+// that is still alive when its call has returned keeps running into the next
+// calls - and, parked, into the next plan of this process - as it would in a
+// real program.
+func Run(p *Plan, logOn bool) (v *verifh.Violation, s *sim) {
+	if !verifrt.LibGoroutines {
+		return run(p, logOn)
+	}
+	x := p.InnerSched | 1
+	next := func() uint64 {
+		x ^= x << 13
+		x ^= x >> 7
+		x ^= x << 17
+		return x
+	}
+	cfg := verifrt.SchedConfig{Tasks: 1, Trace: logOn}
+	if p.InnerSched%5 != 0 { // a fifth of the plans: goroutines run from wait to wait, no forced switches
+		n := 40 + int(next()%400)
+		dense := next()%2 == 0
+		for i := 0; i < n; i++ {
+			gap := next() % 300
+			if dense || next()%3 == 0 {
+				gap = next() % 25
+			}
+			cfg.After = append(cfg.After, uint16(gap))
+			cfg.To = append(cfg.To, uint16(next()%9))
+		}
+	}
+	verifrt.SchedStart(cfg)
+	done := make(chan struct{})
+	var pv any
+	go func() {
+		defer close(done)
+		verifrt.TaskBegin(0)
+		defer verifrt.TaskEnd(0)
+		defer func() { pv = recover() }()
+		v, s = run(p, logOn)
+	}()
+	verifrt.SchedRun(0)
+	verifrt.SchedStop()
+	<-done
+	if pv != nil {
+		panic(pv)
+	}
+	verifh.Count("fault.task-switch(goroutines of the library)", verifrt.Switches)
+	verifh.Count("stat.goroutines-started-by-the-library", verifrt.Spawned)
+	verifh.Count("probe.library-goroutine-alive-from-an-earlier-run", verifrt.CarriedOver)
+	verifh.Count("probe.library-goroutine-still-waiting-at-end-of-run", verifrt.LeftWaiting)
+	if s != nil && logOn {
+		s.log = append(s.log, fmt.Sprintf("sched trace=%x switches=%d started=%d carried=%d left=%d", verifrt.TraceHash(), verifrt.Switches, verifrt.Spawned, verifrt.CarriedOver, verifrt.LeftWaiting))
+	}
+	return v, s
+}
+
+func run(p *Plan, logOn bool) (*verifh.Violation, *sim) {
 	s := &sim{plan: p, prop: p.Prop, logOn: logOn}
+	freshStrings, gcBefore, gcInCall, monoMode, callCount = p.Fresh, p.GCBefore, p.GCInCall, p.MonoMode, 0
+	gcBefore := verifrt.GCsInjected
+	defer func() { verifh.Count("fault.gc-inside-a-call", verifrt.GCsInjected-gcBefore) }()
+	if p.MonoMode != 0 && monoLayoutOK {
+		verifh.Count("fault.monotonic-reading-disagrees-with-wall-clock", 1)
+	}
 	for i := range p.Accounts {
 		a := &acct{Account: p.Accounts[i], idx: i}
 		if a.PersistEvery <= 0 {
